@@ -19,7 +19,11 @@ HINT = ("Earlier waves show that the hardest regressions to detect involve: stat
         "the real helper classes underneath the anchored ones (clocks, RPC stubs, allocators) that test doubles usually replace; "
         "states reachable only through a valid multi-step protocol sequence (authenticate/lock/configure, then act); "
         "resource exhaustion after many repetitions (descriptors, memory, counters); first-use races on lazily filled caches; "
-        "language-level entry points (moves, temporaries, implicit conversions, operator overloads).")
+        "language-level entry points (moves, temporaries, implicit conversions, operator overloads); "
+        "public setters/registrations called again in mid-history; process-wide state (log level, locale, environment, resource limits, signal dispositions); "
+        "operating-system objects that misbehave legitimately (sends that fail, short writes, EINTR/EAGAIN, refused registrations, ttys); "
+        "inputs outside the obvious alphabet (bytes >= 0x80, embedded NUL, structurally different but value-equal data); "
+        "arithmetic in helper value types (intervals, sizes, indices) built through their operators rather than their constructors.")
 for pid in sys.argv[2:]:
     p = props[pid]
     b = brief.replace('/tmp/atk_<ID>', '/tmp/%s_%s' % (prefix, pid)).replace('<ID>', pid)
